@@ -364,12 +364,19 @@ def blocks_of(cl):
     return [block_tuple(b) for b in cl]
 
 
-def fixpoint(cl, s):
-    """the normal-form law on a formatted changelog: re-parsing s (leniently, both
-    allow_empty_author settings) gives the same blocks and formats to s again.
+def fixpoint(cl, s, aea=None):
+    """the normal-form law on a formatted changelog: re-parsing s leniently gives the same blocks and
+    formats to s again.  Re-parsed with both allow_empty_author settings (aea given: with that
+    setting, and with the other one too when the text has a line starting with ' --' and no '<').
     -> None or a message"""
     want = blocks_of(cl)
-    for a in (False, True):
+    if aea is None:
+        settings = (False, True)
+    elif any(l.startswith(" --") and "<" not in l for l in s.split("\n")):
+        settings = (aea, not aea)
+    else:
+        settings = (aea,)
+    for a in settings:
         o = construct(s, aea=a)
         if o.exc:
             return "re-parsing str() output raised %s (allow_empty_author=%s)" % (o.exc, a)
@@ -406,7 +413,7 @@ def c15_laws(text, aea):
             return "str() raised %s" % err[4:], info
         return None, info
     info["str"] = s
-    return fixpoint(len_.cl, s), info
+    return fixpoint(len_.cl, s, aea), info
 
 
 def shape_of(cl):
@@ -812,8 +819,8 @@ def validate(ctx, traces, controls=(), verdict_controls=()):
     if r.printed.get("REJECT"):
         raise core.MachineryError("classifier and generator disagree on a well-formed text: %r" % r.printed["REJECT"][:3])
     rejected = [i for i in range(1, len(traces) + 1) if i not in acc]
-    if not rejected and not verdict_controls:
-        return [], [], {}
+    if not rejected:
+        return [], [], {}       # (the verdict-mode controls are only needed when verdict mode decides something)
     sub = [payload[i - 1] for i in rejected]
     acc2, prog, _ = core.validate_traces(ctx, "TraceChangelog", "TraceChangelog.cfg", sub,
                                          extra_env={"TRACE_DIAG": "1", "TRACE_MODE": "verdict"},
